@@ -19,7 +19,7 @@ META = {
     "timeout": {"quick": 400, "thorough": 900}, "parts": {"quick": 16, "thorough": 16}},
   "h_hist3": {"kind": "G", "functions": _FUNCS, "tiers": ["thorough"],
     "bounds": _B + "every history of 3 steps over {rm, add_line}",
-    "timeout": {"thorough": 1200}, "parts": {"thorough": 16}},
+    "timeout": {"thorough": 900}, "parts": {"thorough": 16}},
  },
 }
 
